@@ -257,6 +257,18 @@ def extract():
     emf = func(mi, "estimate_minor")
     dff = func(mi, "estimate_minor", "default_filter_fn")
     out["MINOR_FILTER_PER_STRUCTURE"] = not any(isinstance(n, ast.Name) and n.id == "major_sol" for n in ast.walk(dff))
+    # operations the region test of the evidence filter lets through unconditionally (depth markers):
+    # `mut.op != "_"` -> ["_"], `mut.op not in ("_", "-")` -> ["_", "-"]
+    rt = [n for n in ast.walk(dff) if isinstance(n, ast.If) and "region_at" not in src(n.test) and "mutations" in src(n.test)]
+    test = one(rt, "minor: region test of default_filter_fn").test
+    cmpn = [n for n in ast.walk(test) if isinstance(n, ast.Compare) and src(n.left) == "mut.op"]
+    c0 = one(cmpn, "minor: mut.op comparison in the region test")
+    if isinstance(c0.ops[0], ast.NotEq) and isinstance(c0.comparators[0], ast.Constant):
+        out["MINOR_FILTER_DEPTH_OPS"] = [c0.comparators[0].value]
+    elif isinstance(c0.ops[0], ast.NotIn) and isinstance(c0.comparators[0], (ast.Tuple, ast.List, ast.Set)):
+        out["MINOR_FILTER_DEPTH_OPS"] = [e.value for e in c0.comparators[0].elts]
+    else:
+        raise ExtractorMismatch("minor: region test of default_filter_fn has an unexpected shape")
     # is the considered-variant collection put into a canonical order before the model is built?
     srt = [n for n in ast.walk(smi) if isinstance(n, ast.Assign) and src(n.targets[0]) == "mutations" and src(n.value).startswith("sorted(")]
     out["MINOR_MUTATIONS_SORTED"] = len(srt) >= 1
@@ -367,6 +379,7 @@ def emit(c) -> str:
     A(f"def MINOR_FILTER_PER_STRUCTURE : Bool := {'true' if c['MINOR_FILTER_PER_STRUCTURE'] else 'false'}")
     A(f"def MINOR_MUTATIONS_SORTED : Bool := {'true' if c['MINOR_MUTATIONS_SORTED'] else 'false'}")
     A(f"def MUTATIONS_ACCESSOR_COPIES : Bool := {'true' if c['MUTATIONS_ACCESSOR_COPIES'] else 'false'}")
+    A("def MINOR_FILTER_DEPTH_OPS : List String := [" + ", ".join(lean_str(x) for x in c["MINOR_FILTER_DEPTH_OPS"]) + "]")
     A(f"def CN_PCE_VAR : String := {lean_str(c['CN_PCE_VAR'])}")
     A("")
     A("/-- `escape_name`: replacements in application order. -/")
